@@ -4,6 +4,7 @@ package sim
 // and the snapshot is the unit of comparison for the history oracles.
 
 import (
+	"verif/simrt"
 	"bytes"
 	"encoding/hex"
 	"fmt"
@@ -80,7 +81,7 @@ func TakeSnap(r *RunCtx, where string, st datatransfer.ChannelState) Snap {
 				r.Fail("C19", "accessor-panic", name+"|"+val, fmt.Sprintf("accessor %s panicked (%v) on a channel state obtained from %s (status %v)", name, p, where, safeStatus(st)))
 			}
 		}()
-		f()
+		simrt.Quiet(f) // observation must not consume preemption points
 	}
 	call("Status", func() { s.Status = st.Status() })
 	call("Message", func() { s.Message = st.Message() })
